@@ -353,7 +353,7 @@ def cmp_site(mo, ro, conv, exact):
 
 
 # ------------------------------------------------------------------ layer B: programs
-INT_N, STR_N, LIST_N, RT_N = ["va", "vb"], ["vs", "vt"], ["vp", "vq"], ["vm", "vr"]
+INT_N, STR_N, LIST_N, RT_N = ["va", "vb", "vc", "vd"], ["vs", "vt", "vu"], ["vp", "vq"], ["vm", "vr"]
 LOOPV = ["vi", "vj", "vk"]
 ALLV = INT_N + STR_N + LIST_N + RT_N + LOOPV
 RT_PINS = {17: 5, 18: 1, 19: 0, 20: 2}
@@ -425,13 +425,36 @@ class ProgGen:
     def stmt(self, env, depth):
         rng = self.rng
         for _ in range(20):
+            q = rng.random()
+            if q < 0.09:
+                # the run-time value of a variable (mon.write(x) reads the C variable: never folded)
+                xs = self.bound(env, INT_N + STR_N)
+                if xs:
+                    return ("val", rng.choice(xs))
+                continue
+            if q < 0.15:
+                # augmented assignment: the name is forgotten by the constant environment (vars[x] = _ExprStr)
+                xs = [x for x in self.bound(env, INT_N + STR_N) if self.writable(env, x)]
+                if xs:
+                    x = rng.choice(xs)
+                    if x in INT_N:
+                        op = rng.choice(["+", "+", "-"])
+                        ks = self.known(env, INT_N)
+                        e = rng.choice([str(rng.randint(0, 5))] * 2 + ks)
+                    else:
+                        op = "+"
+                        ks = self.known(env, STR_N)
+                        e = rng.choice([repr(rng.choice(STRS))] * 2 + ks)
+                    env[x] = ("M",)
+                    return ("aug", x, op, e)
+                continue
             r = rng.random()
             if r < 0.16:
                 x = rng.choice(INT_N)
                 if self.writable(env, x):
                     e = self.int_expr(env)
                     b = self.evalk(env, e)
-                    if b[0] == "K" and not (0 <= b[1] <= 255):
+                    if b[0] == "K" and not (0 <= b[1] <= 999):
                         continue
                     env[x] = b
                     return ("assign", x, e)
@@ -546,7 +569,7 @@ class ProgGen:
     @staticmethod
     def written(st):
         out = set()
-        if st[0] in ("assign", "append", "remove", "rt"):
+        if st[0] in ("assign", "append", "remove", "rt", "aug"):
             out.add(st[1])
         elif st[0] == "if":
             for x in st[1] + st[2]:
@@ -567,12 +590,48 @@ class ProgGen:
                     ws = sorted(x for x in self.written(s) if x in env and x in STR_N + LIST_N)
                     if ws:
                         out.append(("len", self.rng.choice(ws)))
+                    ws = sorted(x for x in self.written(s) if x in env and x in INT_N + STR_N)
+                    if ws and self.rng.random() < 0.6:
+                        out.append(("val", self.rng.choice(ws)))
         if not out:
             cands = [x for x in RT_N if (self.main_bound is None or x in self.main_bound) and all(x in b for b in self.loop_bound)]
             x = self.rng.choice(cands or RT_N)
             env.setdefault(x, ("M",))
             out.append(("rt", x, 17))
         return out, env
+
+    def retune(self, env, pre):
+        """module level: a constant is re-assigned, then used in the FIRST assignment of another module-level name
+        (the global-initialiser vs run-time-assignment split: a static initialiser would see the initial value), and
+        the derived name is looked at"""
+        rng = self.rng
+        for names, mk_new, mk_use in (
+                (INT_N, lambda a: rng.choice([str(rng.randint(10, 400)), f"{a} + {rng.randint(1, 150)}", f"{a} * 2"]),
+                 lambda a, b: rng.choice([f"{a} * 2", f"{a} + {b}", f"{a} + 1", f"max({a}, 3)", f"{b} - {a}", f"{a}"])),
+                (STR_N, lambda a: rng.choice([repr(rng.choice(STRS) + "q"), f"{a} + 'z'"]),
+                 lambda a, b: rng.choice([f"{a} + 'x'", f"{a} + {b}", f"{a}", f"f\"n{{{a}}}\""]))):
+            ks = self.known(env, names)
+            free = [x for x in names if x not in env]
+            if not ks or not free or rng.random() < 0.35:
+                continue
+            a, b = rng.choice(ks), rng.choice(ks)
+            if rng.random() < 0.8:
+                e = mk_new(a)
+                v = self.evalk(env, e)
+                if v[0] != "K" or (names is INT_N and not (-999 <= v[1] <= 999)):
+                    continue
+                pre.append(("assign", a, e)); env[a] = v
+            d = rng.choice(free)
+            e = mk_use(a, b) if rng.random() < 0.85 else (str(rng.randint(0, 9)) if names is INT_N else repr(rng.choice(STRS)))
+            v = self.evalk(env, e)
+            if v[0] == "K" and names is INT_N and not (-999 <= v[1] <= 999):
+                continue
+            pre.append(("assign", d, e)); env[d] = v
+            pre.append(("val", d))
+            if names is STR_N and rng.random() < 0.5:
+                pre.append(("len", d))
+            if names is INT_N and v[0] == "K" and 0 <= v[1] and rng.random() < 0.3:
+                pre.append(("glyph", [d] + ["0"] * 7))
 
     def program(self, main=False):
         env = {}
@@ -603,6 +662,8 @@ class ProgGen:
                     pre.append(("assign", x, "[" + ", ".join([m] + [str(i) for i in v]) + "]")); env[x] = ("M",)
                 else:
                     pre.append(("assign", x, repr(v))); env[x] = ("K", v)
+        for _ in range(rng.choice([0, 1, 1, 2])):
+            self.retune(env, pre)
         body, _ = self.block(env, 0, rng.randint(3, 8))
         prog = pre + body
         if main:
@@ -634,6 +695,10 @@ def wire_prog(p):
             out.append([3, 1, s[1]])
         elif k == "glyph":
             out.append([3, 2, W.enc_src("[" + ", ".join(s[1]) + "]")])
+        elif k == "val":
+            out.append([3, 3, s[1]])
+        elif k == "aug":
+            out.append([8, W.enc_src(f"{s[1]} {s[2]} ({s[3]})")])
         elif k == "if":
             out.append([5, wire_prog(s[1]), wire_prog(s[2])])
         elif k in ("while", "main"):
@@ -671,6 +736,10 @@ def render_prog(p, sfx, header=True):
                 lines.append(f"{pad}led.flash_pattern({rn(s[1])}, 3)")
             elif k == "glyph":
                 lines.append(f"{pad}lcd.glyph(0, [{', '.join(rn(x) for x in s[1])}])")
+            elif k == "val":
+                lines.append(f"{pad}mon.write({rn(s[1])})")
+            elif k == "aug":
+                lines.append(f"{pad}{rn(s[1])} {s[2]}= {rn(s[3])}")
             elif k == "if":
                 cid[0] += 1
                 c = f"c{cid[0]}_{sfx}"
@@ -806,6 +875,11 @@ WITNESSES = {
 }
 
 
+def prog_name(x):
+    """is x one of the generated program's variables (rendered with the suffix _0)?"""
+    return x.endswith("_0") and x[:-2] in ALLV
+
+
 def has_main(p):
     return bool(p) and p[-1][0] == "main"
 
@@ -913,10 +987,13 @@ def layer_b(ctx, stats):
             if m == [2]:
                 ctx.disagree("wire: the model could not decode the program", body, m, None)
                 continue
-            macc, mfresh, mfw, mpy, mstatic = m
-            fresh = g and bool(mfresh)
+            macc, mfresh, mfw, mpy, mstatic, msplit = m
+            msplit_ok, msk, mglobals, mtops = msplit
+            fresh = g and bool(mfresh) and bool(msplit_ok)
             if g and not mfresh:
                 stats["guarded-but-not-fresh"] += 1
+            if mfresh and not msplit_ok:
+                stats["fresh-but-outside-split-guard"] += 1
             # accepted / rejected
             iacc = r["static"]["status"] == "ok"
             if bool(macc) != iacc:
@@ -927,8 +1004,25 @@ def layer_b(ctx, stats):
                                  model_static(mstatic), r["static"]["obs"])
                 else:
                     stats["tie:static-equal"] += 1
+                # module level: which first assignments became static initialisers, which stayed in setup()
+                mg = [[C.wstr(x[0]), x[1]] for x in mglobals]
+                mt = [C.wstr(x) for x in mtops]
+                ig = [x[0][:-2] for x in r["static"].get("globals", []) if prog_name(x[0]) and x[0][:-2] in {n for n, _ in mg}]
+                it = [x[:-2] for x in r["static"].get("tops", []) if prog_name(x[5:] if x.startswith("decl:") else x)]
+                for nm, kind in mg:
+                    stats["global:" + ("static-initialiser" if kind == 0 else "default+runtime-assign")] += 1
+                if [n for n, _ in mg] != ig:
+                    ctx.disagree("module level: globals declared by first assignments differ (model vs IR of the real parser)", body,
+                                 mg, r["static"].get("globals"))
+                elif mt != it:
+                    ctx.disagree("module level: the assignments left in setup() differ - a first assignment is hoisted into a static "
+                                 "initialiser by one side only (model vs IR of the real parser)", body,
+                                 {"globals (0 = static initialiser, 1 = default value)": mg, "top-level assignments": mt},
+                                 {"globals": r["static"].get("globals"), "top-level assignments": it})
+                else:
+                    stats["tie:split-equal"] += 1
                 if r["status"] == "ran":
-                    mp, mf = model_obs(mpy), model_obs(mfw)
+                    mp, mf = model_obs(mpy), model_obs(msk if msplit_ok else mfw)
                     if mp is not None:
                         if mp != r["py"]["obs"]:
                             ctx.disagree("reference run-time semantics of the model differs from CPython", body, mp, r["py"]["obs"])
